@@ -45,6 +45,16 @@ def make_trait(spec, listenable=True):
     raise ValueError(spec)
 
 
+def _value_eq(self, other):
+    # case["eq"]: value-style equality - two objects of one class whose stored plain values agree are equal (no
+    # attribute access, so comparing has no side effect); identity hash
+    if type(self) is not type(other):
+        return False
+    names = type(self)._plain_names
+    return ({k: v for k, v in self.__dict__.items() if k in names}
+            == {k: v for k, v in other.__dict__.items() if k in names})
+
+
 def run_case(case):
     classes = []
     for i, c in enumerate(case["classes"]):
@@ -53,11 +63,17 @@ def run_case(case):
             own = [list(u) for u in c.get("own", [])]
             ns = {nm(tn): make_trait(spec, listenable=list(tn) not in unlisten)
                   for tn, spec in c["traits"] if list(tn) in own}
+            if case.get("eq"):
+                ns.update(_plain_names=frozenset(nm(tn) for tn, spec in c["traits"] if spec[0] == "Normal"),
+                          __eq__=_value_eq, __hash__=object.__hash__)
             classes.append(type("K%d" % i, (classes[c["base"]],), ns))
             continue
         ns = {"__prefix__": nm(c["prefix"]), "_parent_default": lambda self: DEFAULTS.get(id(self), NEXT[0])}
         for tn, spec in c["traits"]:
             ns[nm(tn)] = make_trait(spec, listenable=list(tn) not in unlisten)
+        if case.get("eq"):
+            ns.update(_plain_names=frozenset(nm(tn) for tn, spec in c["traits"] if spec[0] == "Normal"),
+                      __eq__=_value_eq, __hash__=object.__hash__)
         classes.append(type("K%d" % i, (HasTraits,), ns))
     pool = []
 
